@@ -39,6 +39,17 @@
 (*   o.ySlack    uncertainty of the recorded targets in fixed-point units: *)
 (*               0 when every target is dyadic (o.y exact), 1 when the     *)
 (*               targets are arbitrary reals (o.y rounded); 0 for "cls"    *)
+(*   o.rowExp    rowExp[r] (r in 1..nAll): power-of-two scale of the       *)
+(*               regression values of row r.  treePred[t][r], pred[r] and  *)
+(*               oob[r] are recorded as round(v * 2^(16 - rowExp[r])).     *)
+(*               It is 0 everywhere except in the "relative" families,     *)
+(*               whose values span hundreds of binary orders of magnitude  *)
+(*               (targets growing geometrically, which makes member trees  *)
+(*               chains of 70..130 levels).  Scaling by a power of two is  *)
+(*               exact and "v is the mean of a_1..a_m" is invariant under  *)
+(*               it, so MeanOK / OobOK are evaluated on every row; clauses *)
+(*               that compare a row with the targets o.y (RangeOK,         *)
+(*               InBagFit) are evaluated on rows with rowExp[r] = 0 only.  *)
 (*   o.keep      the keep_samples parameter                                *)
 (*   o.hasMask   the forest exposes its bootstrap membership (samples[])   *)
 (*   o.mask      mask[t][r] = TRUE iff training row r is in the bootstrap  *)
@@ -59,10 +70,26 @@
 (*   o.oob       predict_oob values for the training rows                  *)
 (*                                                                         *)
 (* Narrow reading (DESIGN 5.1): plurality ties admit every maximal class;  *)
-(* a training row that is in every bootstrap sample has no out-of-bag      *)
-(* tree and nothing is demanded of its OOB value (the code returns         *)
-(* classes[0] resp. NaN = 0/0); predict_oob of a forest fitted with        *)
-(* keep_samples = false is outside the statement (the code returns Err).   *)
+(* predict_oob of a forest fitted with keep_samples = false is outside the *)
+(* statement (the code returns Err).                                       *)
+(*                                                                         *)
+(* A training row that is in EVERY bootstrap sample has no out-of-bag      *)
+(* tree.  The statement says the OOB prediction "aggregates ... only the   *)
+(* trees whose bootstrap sample did not contain row i"; for such a row     *)
+(* that set is empty and the statement is silent on what is returned.  It  *)
+(* is not silent on what must NOT happen: the value must not be an         *)
+(* aggregate of trees that did see the row.  A regressor has an            *)
+(* unmistakable way to say "no prediction": the empty mean 0/0 is not a    *)
+(* number.  Reading adopted (clause OobEmpty): for a regressor the OOB     *)
+(* value of such a row is an empty aggregate under some convention: not a  *)
+(* finite number (NaN as in the code, or an infinity) or the empty sum 0;  *)
+(* any other finite number there is indistinguishable from a leaked        *)
+(* in-bag estimate and is rejected.  A classifier can only answer with a   *)
+(* label value (the code answers classes[0], the arg-max of an all-zero    *)
+(* tally) and a label can coincide with the in-bag plurality by accident,  *)
+(* so nothing can be demanded of it there without false alarms; such rows  *)
+(* stay unconstrained for the classifier (a difference from the design     *)
+(* model's answer is counted as MODEL-DRIFT on the assembled forests).     *)
 (***************************************************************************)
 EXTENDS Integers, Sequences, FiniteSets, TLC
 
@@ -147,6 +174,7 @@ ShapeOK(o) ==
     /\ Len(o.treePred) = o.trees
     /\ \A t \in 1..o.trees : Len(o.treePred[t]) = o.nAll
     /\ Len(o.pred) = o.nAll
+    /\ Len(o.rowExp) = o.nAll
 
 (***************************************************************************)
 (* keep_samples = true (resp. a forest that was handed its samples[] table *)
@@ -234,6 +262,16 @@ OobMeanOK(o) ==
     (o.keep /\ o.hasMask /\ o.oobStatus = "ok") =>
         \A r \in 1..o.nTrain : OobMeanUse(o, r, OobTrees(o.mask, o.trees, r))
 
+\* a training row that no tree left out: the regressor's OOB value is not a number, or 0
+\* (see the reading in the header)
+OobEmptyOK(o) ==
+    (o.keep /\ o.hasMask /\ o.oobStatus = "ok") =>
+        \A r \in 1..o.nTrain : (\A t \in 1..o.trees : o.mask[t][r]) => (~o.oobFin[r] \/ o.oob[r] = 0)
+
+\* measurement (vacuity counter): some training row is in every bootstrap sample
+HasRowWithoutOobTree(o) ==
+    o.keep /\ o.hasMask /\ \E r \in 1..o.nTrain : \A t \in 1..o.trees : o.mask[t][r]
+
 RECURSIVE SeqMin(_, _, _)
 SeqMin(s, i, acc) == IF i > Len(s) THEN acc ELSE SeqMin(s, i + 1, IF s[i] < acc THEN s[i] ELSE acc)
 RECURSIVE SeqMax(_, _, _)
@@ -250,10 +288,11 @@ SeqMax(s, i, acc) == IF i > Len(s) THEN acc ELSE SeqMax(s, i + 1, IF s[i] > acc 
 InRange(v, lo, hi) == lo <= v /\ v <= hi
 
 RangeRows(o, lo, hi) ==
-    /\ \A r \in 1..o.nAll : InRange(o.pred[r], lo, hi)
+    /\ \A r \in 1..o.nAll : o.rowExp[r] = 0 => InRange(o.pred[r], lo, hi)
     /\ (o.keep /\ o.hasMask /\ o.oobStatus = "ok") =>
           \A r \in 1..o.nTrain :
-              (\E t \in 1..o.trees : ~o.mask[t][r]) => o.oobFin[r] /\ InRange(o.oob[r], lo, hi)
+              (o.rowExp[r] = 0 /\ \E t \in 1..o.trees : ~o.mask[t][r])
+                  => o.oobFin[r] /\ InRange(o.oob[r], lo, hi)
 
 RangeOK(o) == RangeRows(o, SeqMin(o.y, 1, o.y[1]) - o.ySlack, SeqMax(o.y, 1, o.y[1]) + o.ySlack)
 
@@ -278,7 +317,7 @@ Unlimited(maxDepth, msl, mss) == maxDepth = -1 /\ msl = 1 /\ mss <= 1
 
 InBagFit(o) ==
     o.hasMask => \A t \in 1..o.trees : \A r \in 1..o.nTrain :
-                     o.mask[t][r] => Abs(o.treePred[t][r] - o.y[r]) <= o.ySlack
+                     (o.mask[t][r] /\ o.rowExp[r] = 0) => Abs(o.treePred[t][r] - o.y[r]) <= o.ySlack
 
 (***************************************************************************)
 (* All per-forest clauses, as the name of the first one that fails ("" if  *)
@@ -299,6 +338,7 @@ FirstFailCls(o, fitted, unlimitedDistinct) ==
 FirstFailReg(o, fitted, unlimitedDistinct) ==
     IF ~MeanOK(o) THEN "MeanOK"
     ELSE IF ~OobMeanOK(o) THEN "OobOK"
+    ELSE IF ~OobEmptyOK(o) THEN "OobEmpty"
     ELSE IF ~RangeOK(o) THEN "RangeOK"
     ELSE IF fitted /\ unlimitedDistinct /\ ~InBagFit(o) THEN "InBagFit"
     ELSE ""
